@@ -109,6 +109,21 @@ def gen_cases(ctx):
                                     a = a2
                         _fill_buffers(name, a, rng, fill=(kind, vi * 131 + (ln or 0) + len(name)))
                         cases.append((name, ad if r['has_addr'] else (0, 0, 0), a))
+        if any(an.startswith('B:') for an in r['args']):
+            # the smallest size: every length 0, the buffers empty - once as pointers to nothing, once as NULL pointers (nothing is read from a
+            # buffer of length 0, so both are the same accepted call where the spec accepts length 0)
+            for ad in ADDRS:
+                for null in (False, True):
+                    a = dict(base)
+                    for bl in set(BUF_LEN_ARG.values()) & set(r['args']):
+                        a[bl] = 0
+                    _fill_buffers(name, a, rng)
+                    a['_last_ff'] = True
+                    if null:
+                        if S.expected(name, ad, a)[0] != 'accept':
+                            continue
+                        a['_null'] = True
+                    cases.append((name, ad if r['has_addr'] else (0, 0, 0), a))
         if name == 'bidib_send_accessory_para_set_macromap':
             # the list must END with 0xFF: a terminator anywhere else does not make it valid
             for ad in ADDRS:
@@ -144,7 +159,10 @@ def make_scenario(items, seed=1):
         sc.add(f'bus node {ad[0]}.{ad[1]}.{ad[2]} 0{k}00aabbccdd{k:02x}')
     sc.add('debug 1', 'start @null 0')
     for i, (name, ad, a) in items:
-        sc.add(f'mark c{i}', call(name, *S.tokens(name, ad, a)), 'flush', 'quiesce')
+        toks = S.tokens(name, ad, a)
+        if a.get('_null'):
+            toks = ['@null' if str(t_) == 'h:' else t_ for t_ in toks]          # an empty buffer given as NULL pointer
+        sc.add(f'mark c{i}', call(name, *toks), 'flush', 'quiesce')
     sc.add('mark cend', 'stop')
     return sc.text()
 
